@@ -954,6 +954,73 @@ func (r *run) localActions(n int) {
 			r.record("local", files, []string{".github/workflows/w.yml"}, "", want, res, "local-action/"+sh.tag, false)
 			r.local = append(r.local, fmt.Sprintf("((%s, %s, %s, %s), %s)", coqADecls(ins), coqStrs(outs), coqStrs(sh.with), coqStrs(refs), coqObs(res.reps)))
 		}
+		// a second local action whose path differs from the first in letter case only, with another
+		// interface: every step is checked against ITS action (case sensitive file system)
+		if k > 0 && loc.dir != "" {
+			tdir := filepath.Join(filepath.Dir(loc.dir), swapCase(filepath.Base(loc.dir)))
+			tspec := "./" + filepath.ToSlash(tdir)
+			var ins2 []inDecl
+			for _, nm := range pickNames(r.rng, namePool, 4) {
+				if !reserved[strings.ToLower(nm)] {
+					ins2 = append(ins2, r.genDecl(nm, false))
+				}
+			}
+			outs2 := pickNames(r.rng, outPool, 2)
+			ay2 := actionYAML(ins2, outs2)
+			ay2Path := filepath.ToSlash(filepath.Join(tdir, "action.yml"))
+			writeFile(filepath.Join(root, filepath.FromSlash(ay2Path)), ay2)
+			if _, err := os.Stat(filepath.Join(root, filepath.FromSlash(tdir), "action.yml")); err == nil {
+				var all2 []string
+				must2 := map[string]bool{}
+				for _, d := range ins2 {
+					all2 = append(all2, d.Name)
+					if d.mustSupply() {
+						must2[d.Name] = true
+					}
+				}
+				refs2 := []string{undeclaredOut}
+				if len(outs2) > 0 {
+					refs2 = append(refs2, outs2[0])
+				}
+				for t := 0; t < 4; t++ {
+					w1, w2 := randomCall(r.rng, all), randomCall(r.rng, all2)
+					a := [2]struct {
+						spec       string
+						with, refs []string
+					}{{strings.TrimSuffix(loc.spec, "/"), w1, refs}, {tspec, w2, refs2}}
+					if t%2 == 1 {
+						a[0], a[1] = a[1], a[0]
+					}
+					var b strings.Builder
+					b.WriteString("on: push\njobs:\n  j:\n    runs-on: ubuntu-latest\n    steps:\n")
+					for i, st := range a {
+						fmt.Fprintf(&b, "      - uses: %s\n        id: s%d\n", st.spec, i)
+						if len(st.with) > 0 {
+							b.WriteString("        with:\n")
+							for _, n := range st.with {
+								b.WriteString("          " + yamlKey(n) + ": x\n")
+							}
+						}
+					}
+					for i, st := range a {
+						for _, rf := range st.refs {
+							// (one reference per value: a value is not checked beyond its first reported placeholder)
+							fmt.Fprintf(&b, "      - run: echo ${{ steps.s%d.outputs.%s }}\n", i, rf)
+						}
+					}
+					src := b.String()
+					want1, ru1 := oracleStep(all, must, outs, false, false, true, w1, refs)
+					want2, ru2 := oracleStep(all2, must2, outs2, false, false, true, w2, refs2)
+					if len(ru1)+len(ru2) > 0 {
+						continue
+					}
+					want := sortReps(append(append([]rep{}, want1...), want2...))
+					res := lintAlone(root, wpath, []byte(src))
+					files := map[string]string{ayPath: ay, ay2Path: ay2, ".github/workflows/w.yml": src}
+					r.record("twin", files, []string{".github/workflows/w.yml"}, "", want, res, "local-action-case-twin", false)
+				}
+			}
+		}
 	}
 }
 
@@ -1442,6 +1509,23 @@ func (r *run) reusable(n int) {
 			}
 			r.wf = append(r.wf, fmt.Sprintf("((%s, %s, %s, %s, %s, %s, %s), %s)", mode, coqWDecls(ins), coqSDecls(secs), coqStrs(outs),
 				hx.CoqList(with), sec, coqStrs(refs), coqObs(res.reps)))
+		}
+		// two jobs of ONE file call the same callee: each call site is checked on its own
+		for ci := 0; ci+1 < len(calls) && ci < 6; ci += 2 {
+			c1, c2 := calls[ci], calls[len(calls)-1-ci]
+			src := strings.Replace(callerYAML(c1, refs), "on: push\njobs:\n", "on: push\njobs:\n"+strings.Replace(strings.SplitN(strings.TrimPrefix(callerYAML(c2, nil), "on: push\njobs:\n"), "  d:\n", 2)[0], "  c:\n", "  c2:\n", 1), 1)
+			want := sortReps(append(append([]rep{}, r.oracleWf(ins, secs, outs, c1, refs)...), r.oracleWf(ins, secs, outs, c2, nil)...))
+			expectOther := false
+			for _, c := range []wfCall{c1, c2} {
+				for _, vi := range c.vals {
+					if values[vi].Kind == "other" || values[vi].Kind == "null" && len(values[vi].Exprs) > 0 {
+						expectOther = true
+					}
+				}
+			}
+			files := map[string]string{".github/workflows/callee.yml": cy, ".github/workflows/caller.yml": src}
+			res := lintAlone(root, callerPath, []byte(src))
+			r.record("twin", files, []string{".github/workflows/caller.yml"}, "", want, res, "reusable-workflow-two-call-sites/"+c1.tag+"+"+c2.tag, expectOther)
 		}
 	}
 }
